@@ -2,7 +2,7 @@
 """For every seeded change under /tmp/seed/Cxx/out/{A,B}: apply it to the scratch worktree /var/tmp/mut,
 run every claimed check's quick command against that tree, record which checks report a violation."""
 import glob, json, os, re, subprocess, sys
-W = "/var/tmp/mut"
+W = "/var/tmp/mut2"
 V = "/verif"
 props = sorted(f[:-3] for f in os.listdir(V + "/rules") if re.match(r"C\d+\.py$", f))
 head = subprocess.check_output(["git", "-C", "/repo", "rev-parse", "HEAD"], text=True).strip()
